@@ -3,13 +3,14 @@
 EXTENDS FoSampleMd, Json, SequencesExt
 CONSTANTS MaxEntries, OutFile
 
-Files == {"a.fo", "foo.fo", "leaf.fo", "x.y.fo", "nofo", "gone.fo"}
+Files == {"a.fo", "foo.fo", "leaf.fo", "x.y.fo", "nofo", "gone.fo", "p%d.fo", "dir.fo"}      \* gone.fo does not exist, dir.fo is a directory
 Bases == [f \in Files |-> CASE f = "a.fo" -> "a" [] f = "foo.fo" -> "foo" [] f = "leaf.fo" -> "leaf"
-                            [] f = "x.y.fo" -> "x.y" [] f = "nofo" -> "nofo" [] f = "gone.fo" -> "gone"]
+                            [] f = "x.y.fo" -> "x.y" [] f = "nofo" -> "nofo" [] f = "gone.fo" -> "gone" [] f = "p%d.fo" -> "p%d" [] f = "dir.fo" -> "dir"]
 \* content ids (the bytes live in the harness): every readable file gets a different kind of content
-FS == [f \in Files \ {"gone.fo"} |-> CASE f = "a.fo" -> "plain" [] f = "foo.fo" -> "nonl" [] f = "leaf.fo" -> "fences"
-                                       [] f = "x.y.fo" -> "hashes" [] f = "nofo" -> "empty"]
-Rests == {<<FALSE, "">>, <<TRUE, "T">>, <<TRUE, "Two  words here">>, <<TRUE, " lead">>, <<TRUE, "">>}
+FS == [f \in Files \ {"gone.fo", "dir.fo"} |-> CASE f = "a.fo" -> "plain" [] f = "foo.fo" -> "nonl" [] f = "leaf.fo" -> "fences"
+                                       [] f = "x.y.fo" -> "hashes" [] f = "nofo" -> "empty" [] f = "p%d.fo" -> "percent"]
+Rests == {<<FALSE, "">>, <<TRUE, "T">>, <<TRUE, "Two  words here">>, <<TRUE, " lead">>, <<TRUE, "">>,
+          <<TRUE, "100% of %d and %s">>, <<TRUE, "a {b} `c` #x *y* <z> [l](m)">>}         \* titles are text, whatever characters they contain
 Blank == [blank |-> TRUE, file |-> "", sp |-> FALSE, rest |-> ""]
 Ent(f, r) == [blank |-> FALSE, file |-> f, sp |-> r[1], rest |-> r[2]]
 
